@@ -160,6 +160,10 @@ def crosscut_schemas():
             {"type": "string", "minLength": 2, "maxLength": 2}, {"type": "array", "minItems": 1, "maxItems": 1},
             {"type": "integer", "exclusiveMinimum": 1, "exclusiveMaximum": 2}, {"type": "number", "minimum": 3, "maximum": 2},
             {"type": "string", "minLength": 1, "maxLength": 0}, {"type": "integer", "minimum": 5, "exclusiveMaximum": 5}]
+    # length keywords of several sized types in one schema (only those of the declared type speak about its values)
+    out += [{"type": "array", "maxItems": 1, "maxLength": 5}, {"type": "string", "minLength": 2, "minItems": 0},
+            {"type": "array", "minItems": 2, "minProperties": 0, "items": {"type": "integer"}},
+            {"type": "object", "maxProperties": 1, "maxItems": 3}, {"type": "string", "maxLength": 1, "maxProperties": 9}]
     # an explicit type next to a combinator
     for kw in ("anyOf", "oneOf", "allOf"):
         out.append({"type": "integer", kw: [{"minimum": 2}, {"maximum": 3}]})
